@@ -187,6 +187,13 @@ def mon_refuse(world, tracker, ctxd, model, obs, before, after, force, faulted=F
     if ok:
         return out
     inv_n = {v: k for k, v in ctxd['names'].items()}
+    if faulted:
+        # a git command of the evaluation was made to fail (outside the quantifier of the property): what is demanded
+        # then is the purpose of the statement only - no integration branch that HOLDS manual work is deleted or moved
+        # (a failed checkout makes Branch.exists() answer False: the reset may then go on without that branch)
+        holders = {inv_n[wid] for wid, cids in model['manual'].items() if cids}
+        if not (holders & (set(obs['deleted']) | set(obs['changed']))):
+            return out
     inv_c = {v: k for k, v in ctxd['ids'].items()}
     cands = dict(tracker.cands)
     for wid, cids in model['manual'].items():
